@@ -91,6 +91,47 @@ impl Analysis<Lb> for Depth {
     }
 }
 
+// C14: constant folding with a modify hook (the analysis of /repo's own tests/arith/const_prop.rs, on a language with a slot-carrying
+// variable and a binder so that slots, redundancy and constants interact)
+define_language! {
+    pub enum La {
+        AVar(Slot) = "avar",
+        AAdd(AppliedId, AppliedId) = "aadd",
+        AMul(AppliedId, AppliedId) = "amul",
+        ALam(Bind<AppliedId>) = "alam",
+        ANum(u32),
+    }
+}
+
+#[derive(Default)]
+pub struct ConstProp;
+impl Analysis<La> for ConstProp {
+    type Data = Option<u32>;
+    fn make(eg: &EGraph<La, Self>, enode: &La) -> Option<u32> {
+        match enode {
+            La::ANum(x) => Some(*x),
+            La::AAdd(x, y) => match (*eg.analysis_data(x.id), *eg.analysis_data(y.id)) { (Some(a), Some(b)) => Some(a.wrapping_add(b)), _ => None },
+            La::AMul(x, y) => match (*eg.analysis_data(x.id), *eg.analysis_data(y.id)) { (Some(a), Some(b)) => Some(a.wrapping_mul(b)), _ => None },
+            _ => None,
+        }
+    }
+    fn merge(l: Option<u32>, r: Option<u32>) -> Option<u32> {
+        match (l, r) {
+            (Some(a), Some(b)) => Some(if a < b { a } else { b }),      // two different constants in one class only arise from an unsound history; total and a semilattice all the same
+            (Some(a), None) => Some(a),
+            (None, Some(b)) => Some(b),
+            (None, None) => None,
+        }
+    }
+    fn modify(eg: &mut EGraph<La, Self>, i: Id) {
+        if let Some(x) = *eg.analysis_data(i) {
+            let a = eg.add(La::ANum(x));
+            let b = eg.mk_identity_applied_id(i);
+            eg.union(&a, &b);
+        }
+    }
+}
+
 /// per-operator weighted size (C06)
 #[derive(Default)]
 pub struct Weighted;
